@@ -18,16 +18,16 @@ EXAMPLES = sorted(glob.glob(os.path.join(REPO, "floogen", "examples", "*.yml")))
 CONFIG = {
     "C01": dict(algos=None, families=None, n=(250, 4000)),
     "C02": dict(algos=["ID"], families=["star", "mesh", "meshx", "tree", "custom"], n=(200, 3000), perms=True),
-    "C03": dict(algos=["SRC"], families=["star", "mesh", "meshx", "tree", "custom"], n=(200, 3000), perms=True),
+    "C03": dict(algos=["SRC"], families=["star", "mesh", "meshx", "tree", "custom"], n=(200, 3000), perms=True, derived_sweep=True),
     "C04": dict(algos=["XY"], families=["mesh"], n=(200, 3000), xy_sweep=True, skip_xy_offset=True),
     "C05": dict(algos=None, families=None, n=(250, 4000), perms=True),
     "C06": dict(algos=None, families=None, n=(250, 4000)),
-    "C07": dict(algos=None, families=None, n=(250, 4000), perms=True),
+    "C07": dict(algos=None, families=None, n=(250, 4000), perms=True, derived_sweep=True),
     "C08": dict(algos=None, families=None, n=(250, 4000)),
     "C09": dict(algos=["ID", "SRC"], families=["mesh", "tree"], n=(150, 1500), mesh_sweep=True),
     "C11": dict(algos=None, families=None, n=(150, 2000)),
-    "C12": dict(algos=None, families=None, n=(200, 2000), size_sweep=True),
-    "C13": dict(algos=None, families=None, n=(250, 4000)),
+    "C12": dict(algos=None, families=None, n=(200, 2000), size_sweep=True, derived_sweep=True),
+    "C13": dict(algos=None, families=None, n=(250, 4000), derived_sweep=True),
     "C14": dict(algos=["ID", "SRC"], families=["star", "mesh", "meshx", "tree", "custom"], n=(200, 3000), chain_sweep=True),
 }
 
@@ -104,6 +104,20 @@ def sweep_cases(pid, tier, rng):
                 cfg = gen_desc.gen_tree(rng, algo, "axi", tree=t)
                 if cfg:
                     out.append((f"tree-sweep:{algo}:{t}", cfg))
+    if conf.get("derived_sweep"):
+        # fields of `routing` that floogen derives itself, spelled out (too small and too large) in the description
+        keys = ["num_endpoints", "num_id_bits", "num_x_bits", "num_y_bits", "num_route_bits", "addr_offset_bits"]
+        for algo in conf["algos"] or ["XY", "ID", "SRC"]:
+            for k in keys:
+                for v in ([1, 3, 9, 17] if big else [1, 9]):
+                    if algo == "XY":
+                        cfg = gen_desc.gen_mesh(rng, algo, "axi", m=2, n=2, sides=["West"], partial_local=False)
+                    else:
+                        cfg = gen_desc.gen_star(rng, algo, rng.choice(["axi", "narrow-wide"]))
+                    if cfg:
+                        cfg = json.loads(json.dumps(cfg))
+                        cfg["routing"][k] = v
+                        out.append((f"derived:{algo}:{k}={v}", cfg))
     if conf.get("chain_sweep"):
         for algo in ["ID", "SRC"]:
             for m in ([3, 5, 7, 9] if big else [5, 7]):
@@ -117,6 +131,13 @@ def sweep_cases(pid, tier, rng):
                 cfg = gen_desc.gen_mesh(rng, algo, "axi", m=m, n=n, sides=["West"], partial_local=False)
                 if cfg:
                     out.append((f"size-sweep:{algo}:{m}x{n}", cfg))
+        # coordinate widths written into the description for the router array alone
+        for (m, n) in ([(2, 2), (4, 2), (2, 4), (8, 4), (4, 4)] if big else [(2, 2), (4, 2), (2, 4)]):
+            for sides in (["West"], ["South"], ["West", "South", "East", "North"]):
+                cfg = gen_desc.gen_mesh(rng, "XY", rng.choice(["axi", "narrow-wide"]), m=m, n=n, sides=sides,
+                                        partial_local=False, explicit_bits=True)
+                if cfg:
+                    out.append((f"explicit-bits:{m}x{n}:{'+'.join(sides)}", cfg))
         for fan in ([12, 5] if big else [11]):
             cfg = gen_desc.gen_tree(rng, "ID", "axi", tree=[1, fan])
             if cfg:
